@@ -10,6 +10,8 @@ package main
 import (
 	"fmt"
 	"net"
+	"os"
+	"reflect"
 	"runtime"
 	"strings"
 	"sync"
@@ -130,24 +132,84 @@ func (e *renv) setOur(rec *connRec, c network.Conn) {
 }
 
 // sampleAtReturn records, at the instant the first Stop call returns and before anything is
-// allowed to settle, whether the router's endpoint of every connection made so far is closed.
+// allowed to settle, whether the router's own endpoint object of every connection made so
+// far is closed. Only facts that are synchronous with Stop are read here (the closed flag of
+// the router's TCPConn / LocalConn); what the peer sees comes later, after settling, and
+// belongs to the final-state observation only.
 func (e *renv) sampleAtReturn() {
 	e.sampleOnce.Do(func() {
 		e.connMu.Lock()
 		defer e.connMu.Unlock()
 		for _, c := range e.conns {
-			open := true
+			open := false // no endpoint object of the router is known: it never accepted this one
 			if c.our != nil {
 				if closed, known := network.VerifConnClosed(c.our); known {
 					open = !closed
 				}
-			} else if c.pe != nil {
-				open = atomic.LoadInt32(&c.pe.eofSeen) == 0
 			}
 			e.openRet = append(e.openRet, open)
 			e.exemptRet = append(e.exemptRet, atomic.LoadInt32(&c.preTest) == 1)
 		}
 	})
+}
+
+// negotiatingHas reports whether the router's Listen callback for c has passed its first
+// critical section (beginNegotiation) and has not returned yet: c is in Router.negotiating.
+// known is false when the router has no such table (or its lock cannot be taken now).
+func (e *renv) negotiatingHas(c network.Conn) (in bool, known bool) {
+	return negotiatingHas(e.r, c)
+}
+
+func negotiatingHas(r *network.Router, c network.Conn) (in bool, known bool) {
+	f := reflect.ValueOf(r).Elem().FieldByName("negotiating")
+	if !f.IsValid() || f.Kind() != reflect.Map {
+		return false, false
+	}
+	if !r.TryLock() {
+		return false, false
+	}
+	defer r.Unlock()
+	defer func() {
+		if recover() != nil {
+			in, known = false, false
+		}
+	}()
+	return f.MapIndex(reflect.ValueOf(c)).IsValid(), true
+}
+
+// routerKnows reports whether c is in one of the router's own tables (registered, or accepted
+// and under negotiation): the connections Stop is responsible for closing before it returns.
+// Called right after Stop / Close has returned, so the router's lock is free or held only briefly.
+func routerKnows(r *network.Router, c network.Conn) bool {
+	if r.VerifRegistered(c) {
+		return true
+	}
+	for i := 0; i < 1000; i++ {
+		in, known := negotiatingHas(r, c)
+		if known {
+			return in
+		}
+		if f := reflect.ValueOf(r).Elem().FieldByName("negotiating"); !f.IsValid() {
+			return false
+		}
+		runtime.Gosched()
+	}
+	return false
+}
+
+// callbackSettled reports whether the Listen callback of the accepted connection c has taken its
+// first step: it is recorded as negotiating (and will block reading the identity), or it has been
+// refused and closed. Established by observation only; the fall-back for a router without the
+// negotiating table is the callback's goroutine sitting in receiveServerIdentity.
+func (e *renv) callbackSettled(c network.Conn) bool {
+	if closed, known := network.VerifConnClosed(c); known && closed {
+		return true
+	}
+	if f := reflect.ValueOf(e.r).Elem().FieldByName("negotiating"); f.IsValid() && f.Kind() == reflect.Map {
+		in, known := e.negotiatingHas(c)
+		return known && in
+	}
+	return countStack("network.(*Router).receiveServerIdentity", e.rptr) > 0
 }
 
 func (e *renv) tick() int64 { return atomic.AddInt64(&e.stamp, 1) }
@@ -162,7 +224,7 @@ func newKeyedIdentity(addr network.Address) *network.ServerIdentity {
 }
 
 func newREnv(tcp bool, npeers int) (*renv, error) {
-	opDeadline = longDeadline
+	opDeadline = patience
 	e := &renv{tcp: tcp, sched: lib.NewSched(),
 		connectedCh: make(chan network.Conn, 64), identityCh: make(chan network.Conn, 64),
 		acceptedCh:  make(chan network.Conn, 256),
@@ -333,26 +395,45 @@ func newPeerEnd(c network.Conn, dialled bool) *peerEnd {
 }
 
 // opDeadline bounds every wait for an operation of the code under test, so that a hang is
-// an observation (RPending / not returned), never a stuck harness. After the first
-// operation of a case has missed it, the remaining waits of that case are short.
-var opDeadline = 5 * time.Second
+// an observation (RPending / not returned), never a stuck harness. Every wait ends as soon
+// as the awaited event is observed, so the bound is only ever spent when the event does not
+// come at all; it is therefore generous (patience): on the unchanged tree no verdict depends
+// on a deadline expiring, however loaded the machine is. After the first wait of the
+// process has missed it (an alarm is then certain), later cases use a shorter patience, and
+// the remaining waits of the same case are short.
+var patience = 40 * time.Second
 
-const longDeadline = 5 * time.Second
+const patienceAfterMiss = 4 * time.Second
 const shortDeadline = 300 * time.Millisecond
+
+var opDeadline = patience
+var missCount int32
+
+// noteMiss records that a wait has expired.
+func noteMiss(what string) {
+	atomic.AddInt32(&missCount, 1)
+	if os.Getenv("VERIF_C10_DEBUG") != "" {
+		fmt.Fprintln(os.Stderr, "c10: wait expired:", what, "after", opDeadline)
+	}
+	if patience > patienceAfterMiss {
+		patience = patienceAfterMiss
+	}
+	opDeadline = shortDeadline
+}
 
 // pollUntil polls cond until it holds or opDeadline passes (then the later waits are short).
 func pollUntil(cond func() bool) bool {
-	d := opDeadline
-	deadline := time.Now().Add(d)
+	deadline := time.Now().Add(opDeadline)
 	for time.Now().Before(deadline) {
 		if cond() {
 			return true
 		}
 		time.Sleep(200 * time.Microsecond)
 	}
-	if d >= longDeadline {
-		opDeadline = shortDeadline
+	if cond() {
+		return true
 	}
+	noteMiss("poll")
 	return false
 }
 
@@ -361,11 +442,23 @@ func waitCh(ch <-chan struct{}, d time.Duration) bool {
 	case <-ch:
 		return true
 	case <-time.After(d):
-		if d >= longDeadline {
-			opDeadline = shortDeadline
+		select {
+		case <-ch:
+			return true
+		default:
 		}
+		noteMiss("channel")
 		return false
 	}
+}
+
+// hit waits until the gate holds a goroutine.
+func hit(g *lib.Gate) bool {
+	if g.WaitHit(opDeadline) {
+		return true
+	}
+	noteMiss("gate")
+	return false
 }
 
 // startSend launches r.Send in its own goroutine.
@@ -403,8 +496,10 @@ func (e *renv) trackDial(res *opResult, peer int, gate *lib.Gate) bool {
 				case <-rec.pe.gotID:
 				case <-rec.pe.eof:
 				case <-time.After(opDeadline):
+					noteMiss("select")
 				}
 			case <-time.After(opDeadline):
+				noteMiss("select")
 			}
 		}
 	}
@@ -438,6 +533,7 @@ func (e *renv) trackDial(res *opResult, peer int, gate *lib.Gate) bool {
 				}
 			}
 		case <-time.After(opDeadline):
+			noteMiss("select")
 			return false
 		}
 	}
@@ -552,15 +648,21 @@ func (e *renv) runMacro(m mac, seqNo int) error {
 		case c := <-e.acceptedCh:
 			e.setOur(rec, c)
 		case <-time.After(opDeadline):
+			noteMiss("select")
 			return fmt.Errorf("inbound connection never accepted")
 		}
 		if accGate != nil {
-			if !accGate.WaitHit(opDeadline) {
+			if !hit(accGate) {
 				return fmt.Errorf("inbound not held at router.accepted")
 			}
 			return nil
 		}
 		if m.Op == "incomingsilent" {
+			// the model's macro lets the callback take its first step (beginNegotiation) and then
+			// wait for the identity: establish exactly that before the script goes on
+			if !pollUntil(func() bool { return e.callbackSettled(rec.our) }) {
+				return fmt.Errorf("the callback of the silent connection never took its first step")
+			}
 			return nil
 		}
 		var gate *lib.Gate
@@ -575,10 +677,11 @@ func (e *renv) runMacro(m mac, seqNo int) error {
 		case c := <-e.identityCh:
 			e.setOur(rec, c)
 		case <-time.After(opDeadline):
+			noteMiss("select")
 			return fmt.Errorf("identity not received")
 		}
 		if gate != nil {
-			if !gate.WaitHit(opDeadline) {
+			if !hit(gate) {
 				return fmt.Errorf("inbound not held")
 			}
 			return nil
@@ -717,10 +820,11 @@ func (e *renv) runMacro(m mac, seqNo int) error {
 		select {
 		case <-e.closedSetCh:
 		case <-time.After(opDeadline):
+			noteMiss("select")
 			return fmt.Errorf("stop never reached closedSet")
 		}
 		if gate != nil {
-			if !gate.WaitHit(opDeadline) {
+			if !hit(gate) {
 				return fmt.Errorf("stop not held")
 			}
 			return nil
@@ -819,24 +923,13 @@ func (e *renv) waitRegistered(rec *connRec) {
 	if rec.our == nil {
 		return
 	}
-	deadline := time.Now().Add(opDeadline)
-	for time.Now().Before(deadline) {
-		if e.r.Closed() {
-			// refused: the callback closes the connection right after the closed test
-			stop := time.Now().Add(100 * time.Millisecond)
-			for time.Now().Before(stop) {
-				if closed, _ := network.VerifConnClosed(rec.our); closed {
-					return
-				}
-				time.Sleep(200 * time.Microsecond)
-			}
-			return
+	pollUntil(func() bool {
+		if closed, _ := network.VerifConnClosed(rec.our); closed {
+			// refused (or already ended): the callback closes the connection right after its test
+			return true
 		}
-		if e.r.VerifRegistered(rec.our) {
-			return
-		}
-		time.Sleep(200 * time.Microsecond)
-	}
+		return !e.r.Closed() && e.r.VerifRegistered(rec.our)
+	})
 }
 
 // routerGoroutines counts the goroutines executing code of this router.
@@ -893,20 +986,38 @@ func (e *renv) finish(msgConn map[int]int) robsJSON {
 	for _, s := range e.stops {
 		o.Stops = append(o.Stops, waitCh(s.done, opDeadline))
 	}
-	// let the handler goroutines finish their deferred close; leaked endpoints stay open
-	deadline := time.Now().Add(time.Second) // only spent when something really stays open
-	for time.Now().Before(deadline) {
-		all := true
+	// Settling: wait for the consequences that are certain to come - a handler (or callback) whose
+	// connection has been closed by Stop or by the peer ends and closes its side, the peer's
+	// Receive returns on a connection the router has closed, the goroutines of a stopped router
+	// exit. Each is awaited by its own event, never by a fixed pause; an endpoint that is leaked
+	// stays open and costs the patience once.
+	allRet := true
+	for _, b := range o.Stops {
+		allRet = allRet && b
+	}
+	stopped := len(o.Stops) > 0 && allRet && e.r.Closed()
+	pollUntil(func() bool {
 		for _, c := range e.conns {
-			if e.connOpen(c) {
-				all = false
+			ourOpen := false
+			if c.our != nil {
+				if closed, known := network.VerifConnClosed(c.our); known && !closed {
+					ourOpen = true
+				}
+			}
+			if ourOpen && (stopped || c.peerClosed) {
+				return false
+			}
+			if !ourOpen && c.pe != nil && !c.peerClosed && atomic.LoadInt32(&c.pe.stall) == 0 &&
+				atomic.LoadInt32(&c.pe.eofSeen) == 0 {
+				return false
 			}
 		}
-		if all && routerGoroutines(e.rptr) == 0 {
-			break
+		if stopped && routerGoroutines(e.rptr) != 0 {
+			time.Sleep(time.Millisecond)
+			return false
 		}
-		time.Sleep(2 * time.Millisecond)
-	}
+		return true
+	})
 	for _, c := range e.conns {
 		o.Open = append(o.Open, e.connOpen(c))
 		o.PeerEOF = append(o.PeerEOF, c.pe != nil && atomic.LoadInt32(&c.pe.eofSeen) == 1)
@@ -997,7 +1108,10 @@ func (e *renv) cleanup() {
 		e.r.Stop()
 		close(stopped)
 	}()
-	waitCh(stopped, 2*time.Second)
+	select {
+	case <-stopped:
+	case <-time.After(2 * time.Second): // clean-up only, nothing is observed here
+	}
 	for _, p := range e.peers {
 		if p.tcpL != nil {
 			p.tcpL.Stop()
